@@ -131,9 +131,12 @@ def o1_startup(chk, prog, user, db, resp_len, pool_kind, admin_only):
         rd = StreamV(inbound, 'client_read')
         wr = StreamV([], 'client_write')
         csm = Ptr(Cell(Agg([MapV('hashmap')], 'Lock'), 'csmap'))
+        shutdown_rx = Opaque('Receiver', 'shutdown')
+        # (a receiver made by resubscribe() sees only what is sent after the call)
+        ip_.overrides.append((re.compile(r'Receiver::<\(\)>::resubscribe$'), lambda c, p: Opaque('Receiver', 'resubscribed')))
         try:
             r = ip_.drive(ip_.call_function(st, [rd, wr, Opaque('SocketAddr', 'addr'), startup_bytes(user, db), csm,
-                                                 Opaque('Receiver', 'shutdown'), BV(1, int(admin_only))]))
+                                                 shutdown_rx, BV(1, int(admin_only))]))
         except Panic as p:
             raise Inconclusive('Client::startup panic: ' + p.msg)
         ob.nontrivial += 1
@@ -186,6 +189,16 @@ def o1_startup(chk, prog, user, db, resp_len, pool_kind, admin_only):
             chk.report(ob, key, what, {'user': user, 'database': db, 'pool': pool_kind, 'admin_only': admin_only, 'response_len': resp_len, 'attack': attack},
                        {'commands': [{'op': 'startup_login', 'user': user, 'database': db, 'pool': pool_kind, 'admin_only': admin_only, 'attack': attack,
                                       'resp_len': resp_len}], 'expect': ['c09_login', may]})
+        if admitted and chk.pid == 'C17':
+            # the subscription main() took when it accepted the socket is the one the session listens on: the broadcast is sent ONCE, and may be
+            # sent while this client is still logging in
+            got = getf(prog, payload(r, 'Ok')[0], 'Client', 'shutdown')
+            if got is not shutdown_rx:
+                chk.report(ob, 'C17/O1/shutdown-subscription-replaced', 'Client::startup returns a client that does not listen on the shutdown subscription it was given (%r): a '
+                           'SIGINT that arrives while the client is logging in is never seen by its session -- it is admitted (admin_only was false when it connected) and never '
+                           'disconnected' % (got,), {'user': user, 'database': db, 'pool': pool_kind},
+                           {'commands': [{'op': 'startup_login', 'user': user, 'database': db, 'pool': pool_kind, 'admin_only': False, 'attack': 'correct', 'resp_len': 36,
+                                          'shutdown_during_challenge': True}], 'expect': ['c17_resub']})
         if admitted and not may:
             why = 'no such pool' if not exists else ('the pooler is shutting down' if not allowed_shutdown else 'the password response is not the MD5 answer for the salt issued on this connection')
             rep('C09/O1/admitted-without-credentials/%s' % ('admin' if admin_db else pool_kind), 'client %s@%s is admitted although %s (response of %d bytes)' % (user, db, why, resp_len))
@@ -239,6 +252,8 @@ def main(chk):
     # reuse) depends on those fields (the C14 identity obligation, instantiated for config::User)
     import checks.c14 as c14
     c14.o3_identity(chk, prog, ['User'], report_as='C09')
+    # the secret a login is checked against is per (database, user): two users of one section never share the auth_hash cell
+    c14.o2_rebuild(chk, prog, 'two-users', props=('C09',))
 
 
 if __name__ == '__main__':
